@@ -224,6 +224,8 @@ type cls struct {
 	reject bool
 	unspec bool
 	why    string
+	// the Circle convention is switched off
+	circleOff bool
 }
 
 func (c *cls) rej(why string) {
@@ -239,7 +241,12 @@ func (c *cls) uns(why string) {
 }
 
 // Classify reads text and returns what C07 demands of Parse for it.
-func Classify(text string) (Verdict, *Obj, string) {
+func Classify(text string) (Verdict, *Obj, string) { return ClassifyOpts(text, false) }
+
+// ClassifyOpts: with the Circle convention switched off (DisableCircleType) a
+// Feature whose properties look like it is an ordinary Feature, whatever its
+// radius members say.
+func ClassifyOpts(text string, circleOff bool) (Verdict, *Obj, string) {
 	v, err := ParseJSON(text)
 	if err != nil {
 		return MustReject, nil, err.Error()
@@ -247,7 +254,7 @@ func Classify(text string) (Verdict, *Obj, string) {
 	if v.Kind != 'o' {
 		return MustReject, nil, "not an object"
 	}
-	var c cls
+	c := cls{circleOff: circleOff}
 	o := readObj(v, &c, 0)
 	switch {
 	case c.reject:
@@ -472,7 +479,7 @@ func readObj(v *JV, c *cls, depth int) *Obj {
 		// Tile38's Circle convention (a Point feature with properties.type ==
 		// "Circle") has its own rules for radius_units; C07 does not describe
 		// them, so documents with other units are not judged.
-		if ch != nil && ch.Type == "Point" {
+		if ch != nil && ch.Type == "Point" && !c.circleOff {
 			nprops := 0
 			for _, k := range v.Keys {
 				if k == "properties" {
